@@ -27,6 +27,23 @@ def sh(cmd, cwd=None, timeout=1800, env=None):
     return p.returncode, out
 
 
+# (translator script, generated model file, stage name, Props file that states
+# "generated = hand model", property it belongs to)
+GENERATORS = [
+    ('gen_tokrules.py', 'TokGen.v', 'translate-tokrules'),
+    ('gen_buffer.py', 'BufGen.v', 'translate-buffer'),
+    ('gen_clo.py', 'CloGen.v', 'translate-clo'),
+    ('gen_args.py', 'ArgGen.v', 'translate-args'),
+]
+GEN_PROPS = {
+    'translate-tokrules': ('C19', 'C19gen.v'),
+    'translate-buffer': ('C20', 'C20gen.v'),
+    'translate-clo': ('C13', 'C13clogen.v'),
+    'translate-args': ('C18', 'C18gen.v'),
+}
+GENERATED_FILES = tuple(g[1] for g in GENERATORS)
+
+
 class BuildInfo:
     def __init__(self):
         self.ok = True
@@ -38,11 +55,14 @@ class BuildInfo:
         self.failed_files = []
         self.stages = []         # every stage that failed
         self.tokrules_changed = False
+        self.translator_failures = {}   # stage -> error, for the DSL translators
+        self.generated_rewritten = []
 
     def to_json(self):
         return {'ok': self.ok, 'failed_stage': self.stage, 'failed_file': self.failed_file,
                 'failed_files': self.failed_files, 'failed_stages': self.stages,
-                'tables_rewritten': self.tables_changed, 'tokrules_rewritten': self.tokrules_changed,
+                'tables_rewritten': self.tables_changed, 'generated_rewritten': self.generated_rewritten,
+                'translator_failures': self.translator_failures,
                 'translation_error': self.translation_error, 'log_tail': self.log[-1500:]}
 
 
@@ -72,19 +92,25 @@ def build_all(jobs=None):
             if not os.path.exists(os.path.join(COQ, 'theories', 'Model', 'Tables.v')):
                 return info
         info.tables_changed = 'rewritten' in out
-        # the tokenizer rules, translated from the AST of TexSoup/tokens.py
-        # (harness/gen_tokrules.py, fail-closed) into the DSL of Model/TokDSL.v
-        tokgen = os.path.join(COQ, 'theories', 'Model', 'TokGen.v')
-        rc, out = sh([PY, os.path.join(VERIF, 'harness', 'gen_tokrules.py'), tokgen], env=env)
-        info.log += out
-        if rc != 0:
-            info.ok = False
-            info.stage = info.stage or 'translate-tokrules'
-            info.stages.append('translate-tokrules')
-            m = re.search(r'TRANSLATION-FAILED: (.*)', out)
-            if info.translation_error is None:
-                info.translation_error = m.group(1) if m else out[-300:]
-        info.tokrules_changed = 'rewritten' in out
+        # Classes / rule sets translated from the Python AST into small DSLs
+        # (fail-closed translators; DESIGN 3.3).  A translator that gives up
+        # (unsupported shape) does NOT make the build fail: the generated file
+        # of the previous run stays so that the development still compiles,
+        # the Props file stating "generated = hand model" is not counted for
+        # this run (main.py), and the hand model remains tied to the code by
+        # the correspondence check alone.
+        for script, target, stage in GENERATORS:
+            if not os.path.exists(os.path.join(VERIF, 'harness', script)):
+                continue
+            rc, out = sh([PY, os.path.join(VERIF, 'harness', script),
+                          os.path.join(COQ, 'theories', 'Model', target)], env=env)
+            info.log += out
+            if rc != 0:
+                m = re.search(r'TRANSLATION-FAILED: (.*)', out)
+                info.translator_failures[stage] = m.group(1) if m else out[-300:]
+            elif 'rewritten' in out:
+                info.generated_rewritten.append(target)
+        info.tokrules_changed = 'TokGen.v' in info.generated_rewritten
         if (not os.path.exists(os.path.join(COQ, 'Makefile'))
                 or os.path.getmtime(os.path.join(COQ, 'Makefile')) < os.path.getmtime(os.path.join(COQ, '_CoqProject'))):
             rc, out = sh('coq_makefile -f _CoqProject -o Makefile', cwd=COQ)
